@@ -306,6 +306,8 @@ def mods():
         sh.Share.__repr__ = lambda self: "<share>"   # only used inside error messages (it would render the mnemonic of symbolic fields)
         _STATE["real_interpolate"] = S.__dict__["interpolate"]
         _STATE["real_recover_secret"] = S.__dict__["recover_secret"]
+        _STATE["real_split_secret"] = S.__dict__["split_secret"]
+        _STATE["real_m2b"], _STATE["real_b2m"] = sh.mnemonic_to_bytes, sh.bytes_to_mnemonic
         _STATE["real_decrypt"] = S.__dict__["decrypt"]
         nat = loader.native("shamir")
         rng = _random.Random(15)
@@ -645,7 +647,7 @@ def _o3_path(shape):
 
 
 def ob_refusal(shape):
-    exp = ["returned"] if len(shape) else []
+    exp = ["returned"] if len(shape) and len({b for _, b in shape}) == 1 else ["refused:ValueError" if shape else "refused:IndexError"]
     r = sym_run(lambda: _o3_path(shape), expect_classes=exp, timeout_ms=60000, max_violations=24, max_paths=60000)
     r["sample"] = {"shares": len(shape), "group indices": [("symbolic" if g is None else g) for g, _ in shape], "bits": [b for _, b in shape],
                    "symbolic": "id, exponent, group threshold/count, member index/threshold, value of every share"}
@@ -990,15 +992,16 @@ def _rs_cols(nwords, p):
 
 
 def _mat_apply(cols, e):
-    """XOR of the columns selected by the bits of e, written with shifts and xors only"""
+    """XOR of the columns selected by the bits of e, written output bit by output bit with shifts and xors only"""
+    nbits = max(c.bit_length() for c in cols) if cols else 0
+    bits = [(e >> i) & 1 for i in range(len(cols))]
     r = 0
-    for i, col in enumerate(cols):
-        bit = (e >> i) & 1
-        j = 0
-        while col >> j:
+    for j in range(nbits):
+        par = 0
+        for i, col in enumerate(cols):
             if (col >> j) & 1:
-                r = r ^ (bit << j)
-            j += 1
+                par = par ^ bits[i]
+        r = r | (par << j)
     return r
 
 
@@ -1060,44 +1063,41 @@ def _gf2_left_inverse(acols, nrows=30):
     return [sum(((masks[c] >> k) & 1) << c for c in range(m)) for k in range(nrows)]
 
 
-def _rs_detect_path(nwords, sets):
-    """every error pattern on the word positions of a set is detected: with A = [M_p1 | M_p2 | M_p3] (per-position syndrome
-    columns) the harness computes a left inverse N over GF(2) and z3 verifies N*(A*e) == e for the symbolic error symbols e, so
-    a zero syndrome forces e == 0.  Without a left inverse the question `syndrome != 0` goes to z3 directly (and yields a witness)."""
-    sh, S = mods()
-    w = max(len(s) for s in sets)
-    es = [SI.var(f"e{j}", 0, 1023) for j in range(w)]
-    cols = {}
-    for ps in sets:
-        for p in ps:
-            if p not in cols:
-                cols[p] = _rs_cols(nwords, p)
-    for ps in sets:
-        wit = lambda env, ps=ps: {"kind": "pos", "nwords": nwords, "positions": list(ps), "errors": [env[f"e{j}"] for j in range(len(ps))]}  # noqa
-        syn, packed, acols = 0, 0, []
-        for j, (x, p) in enumerate(zip(es, ps)):
-            syn = syn ^ _mat_apply(cols[p], x)
-            packed = packed | (x << (10 * j))
-            acols += cols[p]
-        ninv = _gf2_left_inverse(acols)
-        if ninv is not None:
-            check(_mat_apply(ninv, syn) == packed, f"word positions {list(ps)} of a {nwords}-word share: the error symbols are not a linear function of "
-                                                    f"the syndrome", witness=wit, fresh=True, timeout_ms=120000)
-        else:
-            some = s_or(*[x != 0 for x in es[:len(ps)]])
-            check(s_implies(some, syn != 0), f"errors at word positions {list(ps)} of a {nwords}-word share can cancel in the checksum",
-                  witness=wit, fresh=True, timeout_ms=120000)
+def _rs_detect_path(nwords, ps, cols):
+    """every error pattern on the word positions ps is detected: with A = [M_p1 | M_p2 | M_p3] (per-position syndrome columns)
+    the harness computes a left inverse N over GF(2) and z3 verifies N*(A*e) == e for the symbolic error symbols e, so a zero
+    syndrome forces e == 0.  Without a left inverse the question `syndrome != 0` goes to z3 directly (and yields a witness)."""
+    es = [SI.var(f"e{j}", 0, 1023) for j in range(len(ps))]
+    wit = lambda env: {"kind": "pos", "nwords": nwords, "positions": list(ps), "errors": [env[f"e{j}"] for j in range(len(ps))]}  # noqa
+    syn, packed, acols = 0, 0, []
+    for j, (x, p) in enumerate(zip(es, ps)):
+        syn = syn ^ _mat_apply(cols[p], x)
+        packed = packed | (x << (10 * j))
+        acols += cols[p]
+    ninv = _gf2_left_inverse(acols)
+    if ninv is not None:
+        sv = SI.var("syndrome", 0, (1 << 30) - 1)
+        assume(sv == syn)      # let-binding (a fresh name for the syndrome term, so that its bits are read off one 30-bit term)
+        check(_mat_apply(ninv, sv) == packed, f"word positions {list(ps)} of a {nwords}-word share: the error symbols are not a linear function of "
+                                              f"the syndrome", witness=wit, fresh=True, timeout_ms=120000)
+    else:
+        some = s_or(*[x != 0 for x in es])
+        check(s_implies(some, syn != 0), f"errors at word positions {list(ps)} of a {nwords}-word share can cancel in the checksum",
+              witness=wit, fresh=True, timeout_ms=120000)
     return "ok"
 
 
 def ob_rs_detect(nwords, weight, chunk, nchunks, sample=None):
+    mods()
     allsets = list(itertools.combinations(range(nwords), weight))
     if sample is not None and sample < len(allsets):
         allsets = _random.Random(nwords * 7 + weight).sample(allsets, sample)
     sets = allsets[chunk::nchunks]
-    r = sym_run(lambda: _rs_detect_path(nwords, sets), expect_classes=["ok"], timeout_ms=120000, max_violations=12)
+    cols = {p: _rs_cols(nwords, p) for p in range(nwords)}
+    runs = [sym_run(lambda: _rs_detect_path(nwords, ps, cols), expect_classes=["ok"], timeout_ms=120000) for ps in sets]
+    r = merge_runs(runs)
     r["sample"] = {"words": nwords, "positions per set": weight, "sets": len(sets), "of": _comb(nwords, weight),
-                   "errors": "symbolic, not all zero (covers every sub-pattern of the set)"}
+                   "errors": "symbolic 10-bit differences (every pattern on the set, sub-patterns included)"}
     return r
 
 
@@ -1118,3 +1118,419 @@ def replay_rs_detect(w):
     acc = rs1024_verify_checksum(CS, list(bad))
     return {"violated": bool(acc), "observed": f"{nwords}-word share indices {cw}: changing positions {ps} by xor {es} gives a sequence that "
                                                f"{'passes' if acc else 'fails'} the RS1024 checksum"}
+
+
+# ---- share mnemonic codec (handle word list, checksum polynomial composed from the lemmas above)
+
+def _real_words():
+    with open(os.path.join(_repo(), "buidl", "slip39_words.txt")) as f:
+        return f.read().split()
+
+
+def _sym_fields(prefix=""):
+    return {name: SI.var(f"{prefix}{name}", lo, hi) for name, lo, hi in FIELDS}
+
+
+def _env_fields(env, prefix=""):
+    return {name: env[f"{prefix}{name}"] for name, _, _ in FIELDS}
+
+
+def _share_fields_eq(share, f, value, nbits):
+    return s_and(share.id == f["id"], share.exponent == f["exponent"], share.group_index == f["gi"], share.group_threshold == f["gt"],
+                 share.group_count == f["gc"], share.member_index == f["mi"], share.member_threshold == f["mt"], share.value == value,
+                 share.share_bit_length == nbits)
+
+
+def _encode_path(nbits, pattern):
+    sh, S = mods()
+    hs = install_handles()
+    use_polymod("fold")
+    f = _sym_fields()
+    value = SI.var("value", 0, (1 << nbits) - 1)
+    wit = lambda env: {"kind": "encode", "bits": nbits, "fields": _env_fields(env), "value": hex(env["value"]), "pattern": pattern}  # noqa
+    try:
+        share = sh.Share(nbits, f["id"], f["exponent"], f["gi"], f["gt"], f["gc"], f["mi"], f["mt"], value)
+    except ValueError:
+        check(f["gt"] > f["gc"], "Share() refuses header fields that are in range", witness=wit)
+        return "share-invalid"
+    text = share.mnemonic()
+    toks = text.split(" ")
+    want = spec_pack(f, value, nbits)
+    if not check(len(toks) == len(want) + 3 and all(hs.kind.get(t) == "full" for t in toks), "mnemonic(): word count / tokens", witness=wit):
+        return "shape"
+    got = [hs.index[t] for t in toks]
+    check(s_and(*[a == b for a, b in zip(got, want)]), "mnemonic(): word indices differ from the SLIP39 share layout", witness=wit)
+    cs_want = fold_polymod(list(CS) + want + [0, 0, 0]) ^ 1
+    check(_pack3(got[-3:]) == cs_want, "mnemonic(): the last three words are not polymod(shamir + data + 000) ^ 1", witness=wit)
+    forms = [("prefix" if (pattern == "prefix" or (pattern == "alternating" and k % 2)) else "full") for k in range(len(toks))]
+    text2 = " ".join(hs.token(i, fm) for i, fm in zip(got, forms))
+    try:
+        back = sh.Share.parse(text2)
+    except Exception as ex:
+        check(False, f"parse(mnemonic(share)) raised {type(ex).__name__}: {ex}", witness=wit)
+        return "parse-error"
+    check(_share_fields_eq(back, f, value, nbits), "parse(mnemonic(share)) differs from the share", witness=wit)
+    check((len(back.bytes) == nbits // 8) and (back.bytes == share.bytes), "parse(mnemonic(share)).bytes", witness=wit)
+    return "ok"
+
+
+def ob_encode(nbits, patterns):
+    runs = [sym_run(lambda: _encode_path(nbits, pt), expect_classes=["ok", "share-invalid"], timeout_ms=60000) for pt in patterns]
+    m = merge_runs(runs)
+    m["sample"] = {"bits": nbits, "fields": "id, exponent, group index/threshold/count, member index/threshold, value: all symbolic",
+                   "word forms on the way back": list(patterns)}
+    return m
+
+
+def _words_of(indices, forms=None, words=None):
+    words = words or _real_words()
+    return " ".join(words[i] if (forms is None or forms[k] == "full") else words[i][:4] for k, i in enumerate(indices))
+
+
+def replay_encode(w):
+    from buidl.shamir import Share
+    f, nbits, value = w["fields"], w["bits"], int(w["value"], 16)
+    words = _real_words()
+    try:
+        share = Share(nbits, f["id"], f["exponent"], f["gi"], f["gt"], f["gc"], f["mi"], f["mt"], value)
+    except ValueError as ex:
+        return {"violated": f["gt"] <= f["gc"], "observed": f"Share({f}) raised {ex!r}"}
+    data = spec_pack(f, value, nbits)
+    want = _words_of(data + spec_checksum(data), None, words)
+    text = share.mnemonic()
+    if text != want:
+        return {"violated": True, "observed": f"mnemonic() = {text!r}; SLIP39 layout + RS1024: {want!r}"}
+    n = len(data) + 3
+    for pattern in ("full", "prefix", "alternating"):
+        forms = [("prefix" if (pattern == "prefix" or (pattern == "alternating" and k % 2)) else "full") for k in range(n)]
+        t2 = _words_of(data + spec_checksum(data), forms, words)
+        try:
+            b = Share.parse(t2)
+        except Exception as ex:
+            return {"violated": True, "observed": f"parse({t2!r}) raised {ex!r}"}
+        got = {"id": b.id, "exponent": b.exponent, "gi": b.group_index, "gt": b.group_threshold, "gc": b.group_count, "mi": b.member_index,
+               "mt": b.member_threshold}
+        if got != f or b.value != value or b.share_bit_length != nbits or b.bytes != value.to_bytes(nbits // 8, "big"):
+            return {"violated": True, "observed": f"parse(mnemonic({f}, value {value:#x})) gives {got}, value {b.value:#x}, {b.share_bit_length} bits"}
+    return {"violated": False, "observed": "agrees"}
+
+
+def _decode_path(nwords, pattern):
+    """every sequence of nwords list words: accepted exactly when the checksum matches, the padding bits are zero and the
+    group threshold does not exceed the group count; what is accepted re-encodes to the same words"""
+    sh, S = mods()
+    hs = install_handles()
+    use_polymod("fold")
+    idx = [SI.var(f"w[{k}]", 0, 1023) for k in range(nwords)]
+    forms = [("prefix" if (pattern == "prefix" or (pattern == "alternating" and k % 2)) else "full") for k in range(nwords)]
+    text = " ".join(hs.token(i, fm) for i, fm in zip(idx, forms))
+    chk_ok = fold_polymod(list(CS) + idx) == 1
+
+    def wit(env):
+        return {"kind": "decode", "indices": [env[f"w[{k}]"] for k in range(nwords)], "forms": forms, "chk_valid": _model_true(chk_ok)}
+    nbits = (nwords - 7) * 10 // 16 * 16
+    pad = (nwords - 7) * 10 - nbits
+    value = 0
+    for i in idx[4:-3]:
+        value = (value << 10) | i
+    pad_ok = (value >> nbits) == 0
+    gt = ((idx[2] >> 2) & 15) + 1
+    gc = (((idx[2] & 3) << 2) | (idx[3] >> 8)) + 1
+    try:
+        share = sh.Share.parse(text)
+    except (ValueError, SyntaxError) as ex:
+        check(s_not(s_and(chk_ok, pad_ok, gt <= gc)), f"parse refuses ({type(ex).__name__}: {ex}) a well-formed {nwords}-word share", witness=wit)
+        return "refused:" + type(ex).__name__
+    check(s_and(chk_ok, pad_ok, gt <= gc), "parse accepts a word sequence with a wrong checksum / non-zero padding / threshold above count", witness=wit)
+    check(share.share_bit_length == nbits and pad == 10 - nbits % 10, "share length", witness=wit)
+    text2 = share.mnemonic()
+    toks = text2.split(" ")
+    if not check(len(toks) == nwords and all(hs.kind.get(t) == "full" for t in toks), "mnemonic(parse(m)): word count", witness=wit):
+        return "shape"
+    check(s_and(*[hs.index[t] == i for t, i in zip(toks, idx)]), "mnemonic(parse(m)) differs from m", witness=wit)
+    return "accepted"
+
+
+def _model_true(cond):
+    """truth value of a condition in the current model (witness construction)"""
+    c = core.ctx()
+    if isinstance(cond, bool):
+        return cond
+    try:
+        return bool(core.model_bool(c.model, cond.n, c.mode))
+    except Exception:
+        return None
+
+
+def ob_decode(nwords, patterns):
+    runs = [sym_run(lambda: _decode_path(nwords, pt), expect_classes=["accepted", "refused:ValueError"], timeout_ms=60000) for pt in patterns]
+    m = merge_runs(runs)
+    m["sample"] = {"words": nwords, "indices": "all symbolic in [0,1024)", "forms": list(patterns)}
+    return m
+
+
+def replay_decode(w):
+    """the witness's checksum words refer to the composed polynomial: when the model had a valid checksum they are recomputed with the
+    reference RS1024 before the native functions run"""
+    from buidl.shamir import Share
+    idx, forms = list(w["indices"]), w["forms"]
+    words = _real_words()
+    cands = [idx]
+    if w.get("chk_valid") is not False:
+        cands.append(idx[:-3] + spec_checksum(idx[:-3]))
+    last = None
+    for c in cands:
+        nwords = len(c)
+        nbits = (nwords - 7) * 10 // 16 * 16
+        value = 0
+        for i in c[4:-3]:
+            value = (value << 10) | i
+        gt = ((c[2] >> 2) & 15) + 1
+        gc = (((c[2] & 3) << 2) | (c[3] >> 8)) + 1
+        good = spec_rs1024_polymod(list(CS) + c) == 1 and (value >> nbits) == 0 and gt <= gc and nbits >= 128
+        text = _words_of(c, forms, words)
+        try:
+            share = Share.parse(text)
+        except Exception as ex:
+            if good:
+                return {"violated": True, "observed": f"parse({text!r}) raised {ex!r} on a well-formed share"}
+            last = f"refused {ex!r}"
+            continue
+        if not good:
+            return {"violated": True, "observed": f"parse({text!r}) accepts a malformed share (checksum ok: {spec_rs1024_polymod(list(CS) + c) == 1}, "
+                                                  f"padding ok: {(value >> nbits) == 0}, threshold {gt} of {gc})"}
+        again = share.mnemonic()
+        if again != _words_of(c, None, words):
+            return {"violated": True, "observed": f"mnemonic(parse(m)) = {again!r} != {_words_of(c, None, words)!r}"}
+        last = "round trip ok"
+    return {"violated": False, "observed": last}
+
+
+# =============================================================================================== O6 generate_shares -> recover_mnemonic (wiring)
+
+class _Bip39Token:
+    """what the BIP39 seam hands out for bytes_to_mnemonic(b, nbits)"""
+
+    def __init__(self, b, nbits):
+        self.b, self.nbits = b, nbits
+
+
+def _wiring_path(nb, k, n, subsets, lp, e):
+    sh, S = mods()
+    install_handles()
+    use_polymod("fold")
+    GF_REWRITE[0] = True
+    secret = SBytes.sym("s", nb)
+    pw = SBytes.sym("pw", lp) if lp else b""
+    drawn = _rand_env()
+    seen = {}
+
+    def wit(env, subset=None):
+        return {"secret": bytes_env(env, "s", nb).hex(), "pw": bytes_env(env, "pw", lp).hex(), "k": k, "n": n, "e": e,
+                "rnd": [env[f"r[{i}]"] for i in range(len(drawn))], "subset": list(subset) if subset is not None else None}
+    # seams: the BIP39 codec (C14's subject)
+    sh.mnemonic_to_bytes = lambda m: (seen.setdefault("in", m), secret)[1]
+    sh.bytes_to_mnemonic = lambda b, nbits: _Bip39Token(b, nbits)
+    real_split = _STATE["real_split_secret"].__func__
+    real_interp = _STATE["real_interpolate"].__func__
+    rec = {}
+
+    def split(cls, payload, kk, nn):
+        rec["payload"] = payload
+        out = real_split(cls, payload, kk, nn)
+        rec["shares"] = out
+        return out
+
+    def interp(cls, x, share_data):
+        r = real_interp(cls, x, share_data)
+        e_ = rec.get("expected", {}).get(x)
+        if e_ is not None and len(r) == len(e_):
+            if check(_bytes_all_eq(r, e_), f"recover: interpolate({x}) over the parsed shares does not give back the "
+                                           f"{'encrypted secret' if x == SECRET_X else 'digest share'}",
+                     witness=lambda env: wit(env, rec.get("subset")), fresh=True, timeout_ms=120000):
+                return e_
+        return r
+    S.split_secret = classmethod(split)
+    try:
+        try:
+            texts = S.generate_shares("bip39 words", k, n, passphrase=pw, exponent=e)
+        except Exception as ex:
+            check(False, f"generate_shares({k} of {n}) raised {type(ex).__name__}: {ex}", witness=wit)
+            return "generate-error"
+        check(seen.get("in") == "bip39 words", "generate_shares does not decode the mnemonic it was given", witness=wit)
+        if not check(drawn and drawn[0][0] == 15, "identifier: 15 random bits drawn first", witness=wit):
+            return "shape"
+        if not check(len(texts) == (n if k > 1 else 1), f"generate_shares({k} of {n}) returns {len(texts)} mnemonics", witness=wit):
+            return "shape"
+        payload = rec["payload"]
+        if k > 1:
+            R = [v for _, v in drawn[1:1 + nb - 4]]
+            dshare = list(_sym_hmac(R, payload))[:4] + R
+            rec["expected"] = {SECRET_X: payload, DIGEST_X: norm(SBytes(dshare))}
+        S.interpolate = classmethod(interp)
+        for sub in (subsets if k > 1 else [(0,)]):
+            rec["subset"] = sub
+            try:
+                out = S.recover_mnemonic([texts[i] for i in sub], pw)
+            except Exception as ex:
+                check(False, f"recover_mnemonic(shares {list(sub)} of a {k}-of-{n} split) raised {type(ex).__name__}: {ex}",
+                      witness=lambda env: wit(env, sub))
+                continue
+            ok = isinstance(out, _Bip39Token) and out.nbits == 8 * nb and len(out.b) == nb
+            check(ok and (out.b == secret), f"recover_mnemonic(shares {list(sub)}) does not re-encode the original secret",
+                  witness=lambda env: wit(env, sub), fresh=True, timeout_ms=120000)
+    finally:
+        S.split_secret = _STATE["real_split_secret"]
+        S.interpolate = _STATE["real_interpolate"]
+        sh.mnemonic_to_bytes = _STATE["real_m2b"]
+        sh.bytes_to_mnemonic = _STATE["real_b2m"]
+    return "ok"
+
+
+def ob_wiring(nb, k, n, lp, e, limit=None):
+    rng = _random.Random(77 * k + n)
+    subsets = _subsets(n, k, limit, rng) if k >= 2 else []
+    r = sym_run(lambda: _wiring_path(nb, k, n, subsets, lp, e), expect_classes=["ok"], timeout_ms=120000, max_violations=12)
+    r["sample"] = {"secret_bytes": nb, "k": k, "n": n, "subsets": len(subsets), "passphrase_bytes": lp, "exponent": e,
+                   "symbolic": "secret, passphrase, identifier, all random bytes"}
+    return r
+
+
+def replay_wiring(w):
+    """native generate_shares / recover_mnemonic with the recorded randomness, a real BIP39 mnemonic of the secret"""
+    import buidl.shamir as shamir
+    from buidl.mnemonic import bytes_to_mnemonic
+    secret, pw, k, n, e = bytes.fromhex(w["secret"]), bytes.fromhex(w["pw"]), w["k"], w["n"], w["e"]
+    m = bytes_to_mnemonic(secret, 8 * len(secret))
+    it = iter(w["rnd"])
+    orig = shamir.randbits
+    shamir.randbits = lambda bits: next(it)
+    try:
+        try:
+            texts = shamir.ShareSet.generate_shares(m, k, n, passphrase=pw, exponent=e)
+        except Exception as ex:
+            return {"violated": True, "observed": f"generate_shares({m!r}, {k}, {n}) raised {ex!r}"}
+    finally:
+        shamir.randbits = orig
+    if len(texts) != (n if k > 1 else 1):
+        return {"violated": True, "observed": f"generate_shares({k} of {n}) returned {len(texts)} mnemonics"}
+    subs = [tuple(w["subset"])] if w.get("subset") else (_subsets(n, k) if k > 1 else [(0,)])
+    for sub in subs:
+        try:
+            out = shamir.ShareSet.recover_mnemonic([texts[i] for i in sub], pw)
+        except Exception as ex:
+            return {"violated": True, "observed": f"recover_mnemonic(shares {list(sub)} of {k}-of-{n}, secret {secret.hex()}) raised {ex!r}"}
+        if out != m:
+            return {"violated": True, "observed": f"recover_mnemonic(shares {list(sub)}) = {out!r} != {m!r}"}
+    return {"violated": False, "observed": "agrees"}
+
+
+# =============================================================================================== O0 word list facts (concrete, trusted base of the handles)
+
+def _wordlist_facts():
+    words = _real_words()
+    problems = []
+    if len(words) != 1024:
+        problems.append(f"{len(words)} words")
+    if len(set(words)) != len(words):
+        problems.append("duplicate words")
+    if words != sorted(words):
+        problems.append("not sorted")
+    if not all(w.isascii() and w.isalpha() and w == w.lower() and 4 <= len(w) <= 8 for w in words):
+        problems.append("a word is not 4..8 lower-case ASCII letters")
+    if len({w[:4] for w in words}) != len(words):
+        problems.append("four-letter prefixes are not unique")
+    expected = {}
+    for i, w in enumerate(words):
+        expected[w] = i
+        expected[w[:4]] = i
+    sh = loader.native("shamir")
+    wl = sh.SLIP39
+    if list(wl.words) != words or dict(wl.lookup) != expected:
+        problems.append("SLIP39.words / SLIP39.lookup is not exactly {word: i, word[:4]: i}")
+    for i, w in enumerate(words):
+        if not (wl[w] == i and wl[w[:4]] == i and wl[i] == w):
+            problems.append(f"lookup of word {i}")
+            break
+    real = _STATE.get("real_slip39")
+    if real is not None and (list(real.words) != words or dict(real.lookup) != expected):
+        problems.append("the shimmed module's SLIP39 differs")
+    return (not problems), ("1024 sorted unique words of 4..8 letters, unique 4-letter prefixes, prefix lookup == full lookup"
+                            if not problems else "; ".join(problems[:5]))
+
+
+def ob_wordlist():
+    mods()
+    return conc_run(_wordlist_facts, "SLIP39 word list: 1024 words, unique four-letter prefixes, WordList prefix lookup agrees with full-word "
+                                     "lookup (the facts the handle model assumes)")
+
+
+# =============================================================================================== registry
+
+def obligations(tier):
+    q = tier == "quick"
+    obs = [Ob("O0-wordlist", ob_wordlist)]
+    # O1
+    for lo, hi in ((1, 63), (64, 127), (128, 191), (192, 255)):
+        obs.append(Ob("O1-tables-mul", ob_tables_mul, {"lo": lo, "hi": hi}, replay="tables", budget_s=900))
+    obs.append(Ob("O1-tables-inverse", ob_tables_inverse, replay="tables"))
+    # O2
+    for lo in range(0, 255, 32):
+        obs.append(Ob("O2-lemma", ob_lemma, {"lo": lo, "hi": min(lo + 32, 255)}, replay="tables"))
+    if q:
+        kn = [(16, 1, 1), (16, 2, 2), (16, 2, 3), (16, 3, 3), (16, 3, 5), (32, 1, 1), (32, 2, 3), (32, 3, 5)]
+        for nb, k, n in kn:
+            obs.append(Ob("O2-split-recover", ob_split_recover, {"nb": nb, "k": k, "n": n}, replay="split_recover"))
+    else:
+        for nb in (16, 32):
+            for n in range(1, 6):
+                for k in range(1, n + 1):
+                    obs.append(Ob("O2-split-recover", ob_split_recover, {"nb": nb, "k": k, "n": n}, replay="split_recover", budget_s=1800))
+            for k in range(6, 17):
+                obs.append(Ob("O2-split-recover", ob_split_recover, {"nb": nb, "k": k, "n": k}, replay="split_recover", budget_s=1800))
+            for k, n in ((1, 16), (2, 16), (5, 16), (9, 16), (15, 16), (2, 8), (7, 10), (13, 15)):
+                obs.append(Ob("O2-split-recover", ob_split_recover, {"nb": nb, "k": k, "n": n, "limit": 12}, replay="split_recover", budget_s=1800))
+    # O3
+    shapes = [(), ((None, 128),), ((None, 256),), ((None, 128), (None, 128)), ((0, 128), (1, 256)), ((3, 256), (3, 128)),
+              ((0, 128), (1, 128), (None, 128)), ((2, 256), (2, 256), (None, 256)), ((0, 128), (0, 128), (1, 128), (1, 128)),
+              ((0, 128), (1, 128), (2, 128), (3, 128)), ((0, 256), (1, 256), (2, 256), (3, 256), (4, 256))]
+    if not q:
+        shapes += [((None, 256), (None, 256)), ((None, 128), (None, 128), (5, 128)), ((0, 128), (0, 128), (0, 128), (None, 128)),
+                   ((0, 128), (1, 128), (2, 128), (3, 128), (4, 128), (5, 128)), ((7, 128), (7, 128), (7, 128), (9, 128), (9, 128), (15, 128)),
+                   ((None, 128), (None, 128), (None, 128))]
+    for shp in shapes:
+        obs.append(Ob("O3-refusal", ob_refusal, {"shape": shp}, replay="refusal", budget_s=600 if q else 3000))
+    # O4
+    obs.append(Ob("O4-rs-step", ob_rs_step, replay="rs"))
+    obs.append(Ob("O4-rs-fold", ob_rs_fold, {"maxk": 2 if q else 3}, replay="rs", budget_s=1200))
+    for nwords, step in ((20, 4), (33, 3)):
+        for lo in range(0, nwords, step):
+            obs.append(Ob("O4-rs-positions", ob_rs_positions, {"nwords": nwords, "lo": lo, "hi": min(lo + step, nwords)}, replay="rs_detect",
+                          budget_s=900))
+    if q:
+        for nwords in (20, 33):
+            for weight in (2, 3):
+                for ch in range(2):
+                    obs.append(Ob("O4-rs-detect", ob_rs_detect, {"nwords": nwords, "weight": weight, "chunk": ch, "nchunks": 2, "sample": 24},
+                                  replay="rs_detect"))
+    else:
+        for nwords, nch in ((20, 24), (33, 96)):
+            for ch in range(nch):
+                obs.append(Ob("O4-rs-detect", ob_rs_detect, {"nwords": nwords, "weight": 3, "chunk": ch, "nchunks": nch}, replay="rs_detect",
+                              budget_s=2400))
+    pats = ("full", "alternating") if q else ("full", "prefix", "alternating")
+    for nbits in (128, 256):
+        obs.append(Ob("O4-encode", ob_encode, {"nbits": nbits, "patterns": pats}, replay="encode"))
+    for nwords in (20, 33):
+        obs.append(Ob("O4-decode", ob_decode, {"nwords": nwords, "patterns": pats}, replay="decode"))
+    # O5
+    for nb in (16, 32):
+        obs.append(Ob("O5-feistel", ob_feistel, {"nb": nb, "lps": (0, 1, 6, 40) if q else (0, 1, 2, 6, 13, 40, 100), "exps": (0, 1, 2)},
+                      replay="feistel"))
+    # O6
+    wiring = [(16, 1, 1, 0, 0, None), (16, 2, 3, 3, 1, None)] if q else \
+        [(16, 1, 1, 0, 0, None), (32, 1, 3, 4, 2, None), (16, 2, 2, 0, 0, None), (16, 2, 3, 3, 1, None), (32, 2, 3, 6, 2, None),
+         (16, 3, 5, 5, 0, 6), (32, 3, 5, 5, 2, 6), (16, 5, 5, 9, 1, None), (16, 2, 8, 1, 2, 4)]
+    for nb, k, n, lp, e, lim in wiring:
+        obs.append(Ob("O6-wiring", ob_wiring, {"nb": nb, "k": k, "n": n, "lp": lp, "e": e, "limit": lim}, replay="wiring", budget_s=1200 if q else 3000))
+    return obs
